@@ -784,3 +784,8 @@ package constraint
 //@   props C09 C01
 //@   pure
 //@   ensures result == c.typeName
+
+//@ func NewTypesList(s)
+//@   props C03 C08
+//@   nopanic
+//@   ensures fresh(result) && len(result.innerTypeNames) == 0 && len(result.typeNames) == 0 && len(result.elementASTNodes) == 0
